@@ -1,7 +1,7 @@
 SPECIFICATION Spec
 CONSTANTS Files = {"root", "imp", "leaf"}
   Opts = {"lr", "glr", "slr"}
-  Unresolved = {"glr", "cli"}
+  Unresolved = {"glr", "cli", "clips"}
   LRKinds = {"lr", "slr"}
   MaxSteps = 4
 INVARIANT NeverStale
